@@ -120,6 +120,8 @@ pub struct Case {
     /// `max_depth` argument of Search::search; `Uci::go` passes the depth limit here too
     pub max_depth: Option<u8>,
     pub cut: Cut,
+    /// elapsed milliseconds the search sees once the virtual clock has fired (None: "a day")
+    pub elapsed_ms: Option<u64>,
 }
 
 impl Case {
@@ -131,6 +133,7 @@ impl Case {
             ("go", self.limits.json()),
             ("max_depth", self.max_depth.map_or(J::Null, |d| i(d))),
             ("cut", s(self.cut.text())),
+            ("elapsed_ms", self.elapsed_ms.map_or(J::Null, |d| i(d))),
         ])
     }
     pub fn from_json(j: &J) -> Option<Case> {
@@ -140,10 +143,11 @@ impl Case {
             limits: Limits::from_go_line(j.get("go")?.str()?),
             max_depth: j.get("max_depth").and_then(|x| x.int()).map(|d| d as u8),
             cut: Cut::parse(j.get("cut").and_then(|x| x.str()).unwrap_or("none")),
+            elapsed_ms: j.get("elapsed_ms").and_then(|x| x.int()).map(|d| d as u64),
         })
     }
     pub fn sig(&self) -> String {
-        format!("{}|{}|{}|d{:?}|{}", self.fen, self.history.join(","), self.limits.go_line(), self.max_depth, self.cut.text())
+        format!("{}|{}|{}|d{:?}|{}{}", self.fen, self.history.join(","), self.limits.go_line(), self.max_depth, self.cut.text(), self.elapsed_ms.map_or(String::new(), |e| format!("|e{e}")))
     }
 }
 
@@ -271,6 +275,7 @@ pub fn run_within(board: &Board, case: &Case, o: &Opts, allowance: std::time::Du
             hooks::stop_at(k);
         }
     }
+    hooks::clock_elapsed_after_fire(case.elapsed_ms.unwrap_or(u64::MAX));
     let limits = case.limits.to_engine();
     let max_depth = case.max_depth;
     let result = std::panic::catch_unwind(std::panic::AssertUnwindSafe(|| {
